@@ -343,6 +343,19 @@ def gen_c06(rnd, n, thorough=False):
                     ll += ["gwcreate f %s m %d x %08x" % (fmt_layout(lay), m, xd), "gwmany f %d %d %s" % (nw, len(ptsd), " ".join("%d %016x" % tv for tv in ptsd)), "gwclose f"]
                 ll += ["clixread f %d %d %d" % (nw - 95, nw, nw), "clixread f %d %d %d" % (nw - 9, nw, nw)]
                 cases.append({'id': 'c06-%d-xff-%s' % (c, wr[:2]), 'lines': ll, 'tags': {'layout': 'tens_exact', 'writer': wr + '_decimal_xff', 'levels': len(lay), 'method': m}})
+        if rnd.chance(0.1) and k >= 2:
+            # two files created from one list value, written one after the other with single updates at
+            # different clock positions: each is the classic file of its own history
+            now2 = now + rnd.randint(1, 3 * layout[0][0] + 7)
+            ll = ["createshared f g %s m %d x %08x" % (fmt_layout(layout), m, xff),
+                  "upd f -1 %d %016x %d" % (now - rnd.randint(0, layout[0][0] * 2), value(rnd, False), now),
+                  "upd g -1 %d %016x %d" % (now2 - rnd.randint(0, layout[0][0] * 2), value(rnd, False), now2),
+                  "upd g -1 %d %016x %d" % (now2, value(rnd, False), now2),
+                  "sync f", "sync g", "drop f", "drop g",
+                  "clixread f %d %d %d" % (max(now2 - rets[0], 0), now2, now2), "clixread g %d %d %d" % (max(now2 - rets[0], 0), now2, now2),
+                  "clixread g %d %d %d" % (max(now2 - rets[-1] + 1, 0), now2, now2)]
+            ll += ["open g"] + ["dfetch g %d %d %d %d" % (a_, now2 - layout[a_][0] * layout[a_][1] + 1, now2, now2) for a_ in range(k)] + ["raw g 0"]
+            cases.append({'id': 'c06-%d-shared' % c, 'lines': ll, 'tags': {'layout': lname, 'writer': 'whispertool_shared_list', 'levels': k, 'method': m}})
         if writer == 'whispertool' and rnd.chance(0.12):
             # created again over the file that is there, with a smaller (or larger) layout: the new file is
             # exactly as long as its header says
